@@ -69,6 +69,7 @@ func RunW2Scripted(prof *Profile, plan, sched *simrt.Source, trace bool) *RunOut
 	cfg := g.GenConfig(trace)
 	rules := g.GenRuleSet(prof)
 	text := RenderSet(rules)
+	g.Hist = append(g.Hist, initialOp(rules, text))
 	size := poolSizes[g.Intn(len(poolSizes))]
 	min, max := size[0], size[1]
 	em := 1 + g.Intn(4)
@@ -223,10 +224,10 @@ func RunW2Scripted(prof *Profile, plan, sched *simrt.Source, trace bool) *RunOut
 	}
 	views := BuildViews(run, sc.Calls)
 	var all []Violation
-	checkState := func(i int, m PoolModel, q *queryOut, r round, after string) bool {
+	checkState := func(i int, m PoolModel, q *queryOut, r round, after, kind string) bool {
 		n0 := len(all)
 		add := func(clause, detail, msg string) {
-			all = append(all, Violation{Clause: clause, Method: after, Detail: detail, Msg: msg, Call: i})
+			all = append(all, Violation{Clause: clause, Method: "after-" + kind, Detail: detail, Msg: msg, Call: i})
 		}
 		if q.Panic != "" {
 			add("mgmt-panic", "query", fmt.Sprintf("a query panicked after %s: %s", after, firstLine(q.Panic)))
@@ -289,7 +290,7 @@ func RunW2Scripted(prof *Profile, plan, sched *simrt.Source, trace bool) *RunOut
 		}
 		return len(all) == n0
 	}
-	ok := checkState(-1, models[0], &queries[0], rounds[0], "construction")
+	ok := checkState(-1, models[0], &queries[0], rounds[0], "construction", "construction")
 	for i, op := range ops {
 		if !ok {
 			break // later observations only repeat the first disagreement
@@ -323,7 +324,7 @@ func RunW2Scripted(prof *Profile, plan, sched *simrt.Source, trace bool) *RunOut
 		if models[i].Cleared && (op.Kind == OpFull || op.Kind == OpIncr) && !mustFail[i] {
 			o.count("probe/update_after_clear", 1)
 		}
-		ok = checkState(i, models[i+1], &queries[i+1], rounds[i+1], name)
+		ok = checkState(i, models[i+1], &queries[i+1], rounds[i+1], name, opKindNames[op.Kind])
 	}
 	_ = aborted
 	fl, fm := inFlightCalls(views)
